@@ -1004,7 +1004,9 @@ where
 	C: NodeClient + 'a,
 	K: Keychain + 'a,
 {
-	update_outputs(wallet_inst.clone(), keychain_mask, true)?;
+	// the scan compares the records of every account with the chain and only looks at the
+	// status of the records it matches: refresh them all, not just the active account's
+	update_outputs(wallet_inst.clone(), keychain_mask, true, true)?;
 	let tip = {
 		wallet_lock!(wallet_inst, w);
 		w.w2n_client().get_chain_tip()?
@@ -1095,7 +1097,7 @@ where
 			"Updating outputs from node".to_owned(),
 		));
 	}
-	let mut result = update_outputs(wallet_inst.clone(), keychain_mask, update_all)?;
+	let mut result = update_outputs(wallet_inst.clone(), keychain_mask, update_all, false)?;
 
 	if !result {
 		if let Some(ref s) = status_send_channel {
@@ -1299,11 +1301,13 @@ where
 	Ok((sender_mine, recipient_mine))
 }
 
-/// Attempt to update outputs in wallet, return whether it was successful
+/// Attempt to update outputs in wallet (of the active account, or of every account),
+/// return whether it was successful
 fn update_outputs<'a, L, C, K>(
 	wallet_inst: Arc<Mutex<Box<dyn WalletInst<'a, L, C, K>>>>,
 	keychain_mask: Option<&SecretKey>,
 	update_all: bool,
+	all_accounts: bool,
 ) -> Result<bool, Error>
 where
 	L: WalletLCProvider<'a, C, K>,
@@ -1311,16 +1315,20 @@ where
 	K: Keychain + 'a,
 {
 	wallet_lock!(wallet_inst, w);
-	let parent_key_id = w.parent_key_id();
-	match updater::refresh_outputs(&mut **w, keychain_mask, &parent_key_id, update_all) {
-		Ok(_) => Ok(true),
-		Err(e) => {
+	let accounts: Vec<Identifier> = match all_accounts {
+		true => w.acct_path_iter().map(|m| m.path).collect(),
+		false => vec![w.parent_key_id()],
+	};
+	for parent_key_id in accounts.iter() {
+		if let Err(e) = updater::refresh_outputs(&mut **w, keychain_mask, parent_key_id, update_all)
+		{
 			if let Error::InvalidKeychainMask = e {
 				return Err(e);
 			}
-			Ok(false)
+			return Ok(false);
 		}
 	}
+	Ok(true)
 }
 
 /// Update transactions that need to be validated via kernel lookup
